@@ -320,3 +320,68 @@ def execute(case, ctx):
     nt = klass == 'fault' or bool(''.join(detail['sources'].values()).strip())
     return Outcome(findings, nt, classes, 1, sample={'class': klass, 'fault': case.get('fault'), 'argv': argv,
                                                      'sources': detail['sources'], 'exit': res.exit_code})
+
+
+def extra_phase(tier, seed):
+    """Coverage-guided campaign on the statement parser (bvf/fuzz/asm_fuzz.py): inputs that ran longer than 2 s inside
+    the target are re-run through the real CLI and C14's scaling probe; only confirmed blow-ups are findings."""
+    import json
+    import os
+    import shutil
+    import subprocess
+    import tempfile
+    import yaml
+    here = os.path.dirname(os.path.dirname(os.path.dirname(os.path.abspath(__file__))))
+    if not os.path.isdir(os.path.join(here, '.deps', 'atheris')):
+        return {'report': {'atheris': 'not installed (setup_cmd installs it into .deps); campaign skipped'}}
+    shards, secs = (16, 120) if tier == 'thorough' else (4, 6)
+    root = tempfile.mkdtemp(prefix='bvf-fuzz-', dir=runner.scratch_root())
+    execs = lines = slow_n = 0
+    slow_sources = []
+    try:
+        procs = []
+        for k in range(shards):
+            out = os.path.join(root, f's{k}')
+            os.makedirs(os.path.join(out, 'corpus'))
+            cmd = [runner.PYTHON, os.path.join(here, 'bvf', 'fuzz', 'asm_fuzz.py'), out, os.path.join(out, 'corpus'),
+                   f'-max_total_time={secs}', f'-seed={(seed * 1000 + k) % (2 ** 31) + 1}', '-rss_limit_mb=3000',
+                   f'-artifact_prefix={out}/', '-verbosity=0', '-timeout=60']
+            procs.append((out, subprocess.Popen(cmd, cwd=out, stdout=subprocess.DEVNULL, stderr=subprocess.DEVNULL,
+                                                env=dict(os.environ, PYTHONHASHSEED='0'))))
+        for out, p in procs:
+            try:
+                p.wait(timeout=secs + 180)
+            except subprocess.TimeoutExpired:
+                p.kill()
+            try:
+                st_ = json.load(open(os.path.join(out, 'stats.json')))
+                execs += st_['execs']
+                lines += st_['lines']
+                slow_n += st_['slow']
+            except Exception:
+                pass
+            fp = os.path.join(out, 'slow.jsonl')
+            if os.path.exists(fp):
+                for line in open(fp):
+                    slow_sources.append(json.loads(line)['source'])
+    finally:
+        shutil.rmtree(root, ignore_errors=True)
+    # confirm through the real CLI
+    from ..fuzz import asm_isa
+    cfg = yaml.safe_load(asm_isa.ISA_YAML)
+    fname, text = isagen.dump_isa(cfg, 'yaml')
+    findings = []
+    confirmed = 0
+    argv = ['compile', '-c', fname, '-o', 'out.bin', 'main.asm']
+    for src in slow_sources[:12]:
+        files = {fname: text, 'main.asm': src}
+        series = scaling_probe(argv, files)
+        if exponential(series):
+            confirmed += 1
+            case = {'klass': 'stress', 'isa': cfg, 'files': {'main.asm': _shrink_runs(src, 40)}, 'pp': None, 'pre': False}
+            findings.append(('C14/does-not-terminate/time-grows-exponentially-with-input-length', case,
+                             {'source': src, 'scaling_probe_seconds_by_run_length': series, 'found_by': 'atheris campaign'}))
+    rep = {'engine': 'atheris 3.1 / libFuzzer on LineOjectFactory.parse_line', 'shards': shards, 'seconds_per_shard': secs,
+           'executions': execs, 'lines_parsed': lines, 'iterations_over_2s': slow_n, 'confirmed_blow_ups': confirmed,
+           'corpus': 'empty'}
+    return {'evals': execs, 'cases': execs, 'findings': findings[:1], 'report': rep}
